@@ -289,19 +289,24 @@ def wanted (d : Defects) (dst : Replica) (n : Node) : Option (Option Node) :=
       else if n.mdate = l.mdate && n.sig ≤ l.sig then none
       else some (some l)
 
+/-- the right `validate_node` asks for: own-rows right when no row is stored or its author is the same -/
+def ingestOwn (d : Defects) (n : Node) : Option Node → Bool
+  | some l => if d.rightDependsOnLocalAuthor then l.author = n.author else true
+  | none => true
+
+/-- `NodeToInsert::update_daily_logs`: the old day is marked only if the room changed -/
+def ingestOldMarks (d : Defects) (n : Node) : Option Node → List Key
+  | some l =>
+    if l.room ≠ n.room then [kNode l.room n.ent l.mdate]
+    else if d.oldDayUnmarked then [] else [kNode l.room l.ent l.mdate]
+  | none => []
+
 /-- `validate_node` + `NodeToInsert::write` + `update_daily_logs` for one fetched row -/
 def ingestNode (d : Defects) (rights : List Bool) (r : Replica) (n : Node) (old : Option Node) : Replica :=
-  let own := match old with
-    | some l => if d.rightDependsOnLocalAuthor then l.author = n.author else true
-    | none => true
-  if !can rights n.author own then r
-  else
-    let oldMarks := match old with
-      | some l =>
-        if l.room ≠ n.room then [kNode l.room n.ent l.mdate]
-        else if d.oldDayUnmarked then [] else [kNode l.room l.ent l.mdate]
-      | none => []
-    { r with nodes := putNode n r.nodes, log := markAll (kNode n.room n.ent n.mdate :: oldMarks) r.log }
+  if can rights n.author (ingestOwn d n old) then
+    { r with nodes := putNode n r.nodes,
+             log := markAll (kNode n.room n.ent n.mdate :: ingestOldMarks d n old) r.log }
+  else r
 
 /-- `synchronise_day` -/
 def syncDay (d : Defects) (rights : List Bool) (dst src : Replica) (room ent day : Nat) : DayResult :=
@@ -468,14 +473,19 @@ def World.write (d : Defects) (w : World) (p : Nat) (op : WOp) : World × Option
       | _, _ => w2
     (w3, some e.res)
 
+def World.inBatch (w : World) (p : Nat) : Bool :=
+  match w.batch with
+  | some b => b.peer = p
+  | none => false
+
+def World.recomputeAt (d : Defects) (w : World) (p : Nat) : World :=
+  w.setPeer p { (w.peer p) with log := recompute d (w.peer p).sigs (w.peer p).log }
+
 def World.compute (d : Defects) (w : World) (p : Nat) : World × Bool :=
-  let inBatch : Bool := match w.batch with | some b => b.peer = p | none => false
-  let w1 := if inBatch then w else w.commit.1
-  let cur := w1.peer p
-  let w2 := w1.setPeer p { cur with log := recompute d cur.sigs cur.log }
-  if inBatch then
+  if w.inBatch p then
+    let w2 := w.recomputeAt d p
     ({ w2 with batch := w2.batch.map fun b => { b with pend := b.pend ++ [.computed] } }, true)
-  else (w2, false)
+  else ((w.commit.1).recomputeAt d p, false)
 
 def World.pull (d : Defects) (w : World) (dst src room : Nat) : World × Nat :=
   let w1 := w.commit.1
